@@ -687,55 +687,97 @@ impl IsoCtx {
 
 // ------------------------------------------------------------------ servers
 
-fn server_leg(rep: &mut Report) {
-    let hb = hbases_all();
-    let a = par_shards(hb.len(), threads(), |bi| {
-        let mut agg = Agg::default();
-        let b = &hb[bi];
-        let lab = HttpLab::new();
-        let dir = scratch_dir("c15srv");
-        let out = dir.path().join("out.bin");
-        let faults = [HF::Extra(1), HF::Extra(5000), HF::Status(500), HF::Status(204), HF::Empty, HF::LengthLie(7), HF::Redirect, HF::Garbage, HF::FullFile, HF::ErrorPage(404), HF::ShortBody(0), HF::WrongBytes, HF::CutAfter(0), HF::RedirectLoop(300),
+/// The server leg runs in isolated workers too: a response may make the client allocate what it declares.
+pub struct SrvCtx {
+    hb: Vec<HBase>,
+    faults: Vec<HF>,
+    jobs: Vec<(usize, usize, usize, u32)>,
+    lab: std::cell::OnceCell<(HttpLab, tempfile::TempDir)>,
+}
+
+impl SrvCtx {
+    pub fn new() -> SrvCtx {
+        let hb = hbases_all();
+        let faults = vec![HF::Extra(1), HF::Extra(5000), HF::Status(500), HF::Status(204), HF::Empty, HF::LengthLie(7), HF::LengthLie(1 << 40), HF::LengthLie(1 << 62), HF::Redirect, HF::Garbage, HF::FullFile, HF::ErrorPage(404), HF::ShortBody(0), HF::WrongBytes, HF::CutAfter(0), HF::RedirectLoop(300),
             HF::BadContentRange(0), HF::BadContentRange(1), HF::BadContentRange(2), HF::BadContentRange(3), HF::BadContentRange(4)];
-        let nreq = 2 + b.built.dict.chunk_descriptors.len();
-        for at in 0..nreq {
-            for f in &faults {
-                for retries in [0u32, 2] {
-                    let mut script = vec![HF::None; at];
-                    script.push(f.clone());
-                    if retries > 0 {
-                        script.push(f.clone());
+        let mut jobs = vec![];
+        for (bi, b) in hb.iter().enumerate() {
+            let nreq = 2 + b.built.dict.chunk_descriptors.len();
+            for at in 0..nreq {
+                for fi in 0..faults.len() {
+                    for retries in [0u32, 2] {
+                        jobs.push((bi, at, fi, retries));
                     }
-                    lab.server.arm(&b.built.bytes, Script { faults: script, splits: vec![], keep_alive: false });
-                    let _ = std::fs::remove_file(&out);
-                    let args = c04::cli_clone_args(&lab.server.url(), &out, &["--http-retry-count".to_string(), retries.to_string(), "--http-timeout".to_string(), "5".to_string()]);
-                    let t0 = std::time::Instant::now();
-                    let r = c04::cli_clone(&lab.rt, args);
-                    agg.add("server_cases", 1);
-                    let detail = || json!({"leg": "server", "base": b.name, "fault": format!("{:?}", f), "at_request": at, "retries": retries, "result": format!("{:?}", r)});
-                    // a redirect chain must be ended by a hop limit of the client, not by the server's patience
-                    let hops = lab.server.log().iter().filter(|l| l.fault.starts_with("RedirectLoop")).count();
-                    if hops >= 100 {
-                        agg.viol("unbounded-work:redirect-chain-followed-without-a-hop-limit", || {
-                            let mut j = detail();
-                            j["redirects_followed"] = json!(hops);
-                            j
-                        });
-                    }
-                    match &r {
-                        Err(p) => agg.viol(&format!("server-response:{}", panic_class(p)), detail),
-                        Ok(_) if t0.elapsed().as_secs() >= 9 => agg.viol("unbounded-work:server-response-stalls-clone", detail),
-                        Ok(Ok(())) => agg.add("ended_in_success", 1),
-                        Ok(Err(_)) => agg.add("ended_in_reported_error", 1),
-                    }
-                    agg.distinct("server_case_kinds", fnv(format!("{:?}{at}{retries}", f).as_bytes()));
                 }
             }
         }
-        agg.sample(|| json!({"leg": "server", "base": b.name, "faults": format!("{:?}", faults), "positions": nreq}));
-        agg
-    });
-    rep.agg.merge(a);
+        SrvCtx { hb, faults, jobs, lab: std::cell::OnceCell::new() }
+    }
+    pub fn njobs(&self) -> usize {
+        self.jobs.len()
+    }
+    pub fn describe(&self, job: usize) -> String {
+        let (bi, at, fi, retries) = self.jobs[job];
+        format!("{} {:?} at request {} retries {}", self.hb[bi].name, self.faults[fi], at, retries)
+    }
+    pub fn fault_name(&self, job: usize) -> String {
+        format!("{:?}", self.faults[self.jobs[job].2]).split('(').next().unwrap_or("").to_string()
+    }
+    pub fn run_job(&self, job: usize, agg: &mut Agg) {
+        let (lab, dir) = self.lab.get_or_init(|| (HttpLab::new(), scratch_dir("c15srv")));
+        let (bi, at, fi, retries) = self.jobs[job];
+        let (b, f) = (&self.hb[bi], &self.faults[fi]);
+        let out = dir.path().join("out.bin");
+        let mut script = vec![HF::None; at];
+        script.push(f.clone());
+        if retries > 0 {
+            script.push(f.clone());
+        }
+        lab.server.arm(&b.built.bytes, Script { faults: script, splits: vec![], keep_alive: false });
+        let _ = std::fs::remove_file(&out);
+        let args = c04::cli_clone_args(&lab.server.url(), &out, &["--http-retry-count".to_string(), retries.to_string(), "--http-timeout".to_string(), "5".to_string()]);
+        let t0 = std::time::Instant::now();
+        let r = c04::cli_clone(&lab.rt, args);
+        agg.add("server_cases", 1);
+        let detail = || json!({"leg": "server", "base": b.name, "fault": format!("{:?}", f), "at_request": at, "retries": retries, "result": format!("{:?}", r), "job": job});
+        // a redirect chain must be ended by a hop limit of the client, not by the server's patience
+        let hops = lab.server.log().iter().filter(|l| l.fault.starts_with("RedirectLoop")).count();
+        if hops >= 100 {
+            agg.viol("unbounded-work:redirect-chain-followed-without-a-hop-limit", || {
+                let mut j = detail();
+                j["redirects_followed"] = json!(hops);
+                j
+            });
+        }
+        match &r {
+            // (prefix: a crash caused by a RESPONSE is never taken for one caused by a header field)
+            Err(p) => agg.viol(&format!("server-response:{}", panic_class(p)), detail),
+            Ok(_) if t0.elapsed().as_secs() >= 9 => agg.viol("unbounded-work:server-response-stalls-clone", detail),
+            Ok(Ok(())) => agg.add("ended_in_success", 1),
+            Ok(Err(_)) => agg.add("ended_in_reported_error", 1),
+        }
+        agg.distinct("server_case_kinds", fnv(format!("{:?}{at}{retries}", f).as_bytes()));
+        if job % 997 == 5 {
+            agg.sample(|| json!({"leg": "server", "base": b.name, "fault": format!("{:?}", f), "at_request": at, "retries": retries}));
+        }
+    }
+}
+
+fn server_leg(rep: &mut Report) {
+    let ctx = SrvCtx::new();
+    match crate::isolate::run_isolated("c15srv", &rep.tier.clone(), ctx.njobs(), threads().min(8)) {
+        Err(e) => machinery(e),
+        Ok((agg, deaths)) => {
+            rep.agg.merge(agg);
+            rep.agg.add("process_deaths", deaths.len() as u64);
+            for d in &deaths {
+                let kind = if d.how.starts_with("watchdog") { "watchdog" } else { "process-death" };
+                let class = format!("server-response:{kind}[{}]", ctx.fault_name(d.job));
+                let (desc, how, job, tier) = (ctx.describe(d.job), d.how.clone(), d.job, rep.tier.clone());
+                rep.agg.viol(&class, || json!({"leg": "server-isolated", "case": desc, "how": how, "job": job, "tier": tier}));
+            }
+        }
+    }
 }
 
 pub fn run(rep: &mut Report) {
@@ -783,7 +825,7 @@ pub fn run(rep: &mut Report) {
     rep.set("evaluations", json!(ev));
     rep.set("distinct_nontrivial", json!(rep.agg.get("mutated_headers_single") + rep.agg.get("mutated_headers_pair") + rep.agg.get("dictionary_byte_mutations") + rep.agg.distinct_count("server_case_kinds")));
     rep.set("exhaustive", json!(true));
-    rep.set("rule", json!("(i) every single-bit flip and truncation of three small valid archives, cloned with and without a seed; (ii) structurally valid headers with re-computed checksum written by the independent encoder: every field of every message (chunker parameters, compression, sizes, checksums' lengths, rebuild indexes, descriptor sizes/offsets, chunk data offset, missing sub-messages, duplicated / missing descriptors, 100 kB version string) set to every value of an adversarial alphabet, singly (quick) and in all pairs (thorough), each opened + info-printed, cloned, cloned with a seed (recorded chunker parameters in use) and cloned in place; (ii-b) every byte of the protobuf dictionary replaced by each of its 8 single-bit flips and by {00, 01, 7f, 80, ff} under a re-computed checksum (the decoder sees well-checksummed but structurally damaged dictionaries); (iii) 19 server misbehaviours (incl. five malformed Content-Range values and a redirect chain of 300 hops that only a client-side hop limit ends) at every request position with retry budget 0 and 2 through the real clone_cmd; every case in an isolated worker with a 6 GiB address-space limit, a 20 s per-operation watchdog and chunk-count horizons; oracle: success or reported error, never panic / process death / watchdog / horizon; non-trivial = distinct mutated headers + distinct server cases"));
+    rep.set("rule", json!("(i) every single-bit flip and truncation of three small valid archives, cloned with and without a seed; (ii) structurally valid headers with re-computed checksum written by the independent encoder: every field of every message (chunker parameters, compression, sizes, checksums' lengths, rebuild indexes, descriptor sizes/offsets, chunk data offset, missing sub-messages, duplicated / missing descriptors, 100 kB version string) set to every value of an adversarial alphabet, singly (quick) and in all pairs (thorough), each opened + info-printed, cloned, cloned with a seed (recorded chunker parameters in use) and cloned in place; (ii-b) every byte of the protobuf dictionary replaced by each of its 8 single-bit flips and by {00, 01, 7f, 80, ff} under a re-computed checksum (the decoder sees well-checksummed but structurally damaged dictionaries); (iii) 21 server misbehaviours (incl. a declared Content-Length of 2^40 / 2^62, five malformed Content-Range values and a redirect chain of 300 hops that only a client-side hop limit ends) at every request position of four archives (one storing its chunks with gaps, so that every chunk is a request of its own and a bad response is followed by further requests) with retry budget 0 and 2 through the real clone_cmd; every case in an isolated worker with a 6 GiB address-space limit, a 20 s per-operation watchdog and chunk-count horizons; oracle: success or reported error, never panic / process death / watchdog / horizon; non-trivial = distinct mutated headers + distinct server cases"));
     rep.assume("a chunk may legitimately declare up to 2^32-1 bytes (pre-allocated by decompress); only one such buffer exists at a time in these runs");
     rep.assume("byte strings not reachable by <= 2 simultaneous field mutations or a single bit flip / truncation are not covered");
 }
@@ -802,7 +844,8 @@ pub fn replay(v: &Value) -> bool {
     }
     // a process-level failure: run that one job in a child process and watch it die / hang
     let exe = std::env::current_exe().unwrap();
-    let mut child = std::process::Command::new(exe).args(["iso-job", "c15", v["tier"].as_str().unwrap_or("quick"), &v["job"].to_string()]).spawn().unwrap();
+    let kind = if v["leg"].as_str().map_or(false, |l| l.starts_with("server")) { "c15srv" } else { "c15" };
+    let mut child = std::process::Command::new(exe).args(["iso-job", kind, v["tier"].as_str().unwrap_or("quick"), &v["job"].to_string()]).spawn().unwrap();
     let t0 = std::time::Instant::now();
     loop {
         if let Ok(Some(st)) = child.try_wait() {
